@@ -74,7 +74,7 @@ fn c02_o4a_immutable_glue() {
     let mut core = new_core(false, vec![]);
     let vb: u8 = kani::any();
     let honest: bool = kani::any();
-    let other: [u8; 20] = kani::any();
+    let other: [u8; 20] = kani::env();
     let target: Id = if honest { uf::h(&[vb]).into() } else { Id::from(other) };
     let authentic = uf::h(&[vb]) == *target.as_bytes();
     lookup(&mut core, target, GetRequestSpecific::GetValue(GetValueRequestArguments { target, seq: None, salt: None }));
@@ -294,15 +294,19 @@ fn put_reply_scenario(is_err: bool) {
     assert!(a_acks == (credit_a && !is_err) as usize, "C08.O5/C18.O4 an ack is credited exactly to the owning put, never from a read-only reply");
     assert!(b_acks == (credit_b && !is_err) as usize, "C08.O5/C18.O4 an ack is credited exactly to the owning put, never from a read-only reply");
     // errors: PutQuery::error is a probe here (who was told what)
+    #[cfg(not(verif_replay))]
     let (calls, t0, c) = unsafe { (ERR_CALLS.v, ERR_TARGET0.v, ERR_CODE.v) };
+    #[cfg(verif_replay)]
+    let (calls, t0, c) = if a_errs.0 > 0 { (a_errs.1, 5u8, a_errs.2) } else if b_errs.0 > 0 { (b_errs.1, 6u8, b_errs.2) } else { (0, 0, 0) };
     if is_err && (credit_a || credit_b) {
         assert!(calls == 1 && c == code && t0 == (if credit_a { 5 } else { 6 }), "C08.O5 an error is handed once, with its code, to the owning put");
     } else {
         assert!(calls == 0, "C08.O5/C18.O4 an error is tallied only for the owning put, never from a read-only reply");
     }
+    #[cfg(not(verif_replay))]
     assert!(a_errs.0 == 0 && b_errs.0 == 0, "C08.O5 (tallies untouched: PutQuery::error is a probe)");
     if ro || which == 2 {
-        assert!(unsafe { RT_ADDS.v } == 0, "C09/C18.O4 replies that are read-only or match no in-flight request teach nothing");
+        assert!(obs_learned(&core) == 0, "C09/C18.O4 replies that are read-only or match no in-flight request teach nothing");
     }
     assert!(!cut_reached(), "CUT: a lookup validator reached for a put reply");
     kani::cover!(credit_a);
@@ -414,6 +418,75 @@ fn responder_probe(_q: &mut IterativeQuery, n: Node) {
     }
     std::mem::forget(n);
 }
+// Observations: under Kani the probes' records; in a native replay (no stubs there: the real
+// bookkeeping runs) the same facts read back from the real objects.
+fn obs_responses(core: &Core, target: &Id, base: usize) -> (usize, u8, u8, usize) {
+    #[cfg(not(verif_replay))]
+    {
+        let _ = (core, target, base);
+        unsafe { (RESP_CALLS.v, RESP_KIND.v, RESP_B0.v, RESP_LEN.v) }
+    }
+    #[cfg(verif_replay)]
+    {
+        match core.iterative_queries.get(target) {
+            Some(q) => {
+                let rs = q.responses();
+                let n = rs.len().saturating_sub(base);
+                match rs.last() {
+                    Some(r) if n > 0 => {
+                        let (k, b, l) = describe(r);
+                        (n, k, b, l)
+                    }
+                    _ => (0, 0, 0, 0),
+                }
+            }
+            None => (0, 0, 0, 0),
+        }
+    }
+}
+fn obs_candidates(core: &Core, target: &Id) -> (usize, u8) {
+    #[cfg(not(verif_replay))]
+    {
+        let _ = (core, target);
+        unsafe { (CAND_CALLS.v, CAND_ID0.v) }
+    }
+    #[cfg(verif_replay)]
+    {
+        match core.iterative_queries.get(target) {
+            Some(q) => {
+                let ns = q.closest().nodes();
+                (ns.len(), if ns.is_empty() { 0 } else { ns[0].id().as_bytes()[0] })
+            }
+            None => (0, 0),
+        }
+    }
+}
+fn obs_responders(core: &Core, target: &Id) -> (usize, bool) {
+    #[cfg(not(verif_replay))]
+    {
+        let _ = (core, target);
+        unsafe { (RESPONDER_CALLS.v, RESPONDER_TOKEN.v) }
+    }
+    #[cfg(verif_replay)]
+    {
+        match core.iterative_queries.get(target) {
+            Some(q) => (q.kani_responders_len(), q.kani_responder_has_token()),
+            None => (0, false),
+        }
+    }
+}
+fn obs_learned(core: &Core) -> usize {
+    #[cfg(not(verif_replay))]
+    {
+        let _ = core;
+        unsafe { RT_ADDS.v }
+    }
+    #[cfg(verif_replay)]
+    {
+        core.routing_table.size() + core.signed_peers_routing_table.size()
+    }
+}
+
 fn tfk_uf(k: &[u8; 32], salt: Option<&[u8]>) -> Id {
     mh::target_uf(k, salt)
 }
@@ -449,9 +522,14 @@ fn c02_o4i_immutable_glue_probed() {
     let mut core = new_core(false, Vec::with_capacity(1));
     let vb: u8 = kani::any();
     let honest: bool = kani::any();
-    let other: [u8; 20] = kani::any();
-    let target: Id = if honest { uf::h(&[vb]).into() } else { Id::from(other) };
-    let authentic = uf::h(&[vb]) == *target.as_bytes();
+    let other: [u8; 20] = kani::env();
+    // the value's hash: H under Kani, the real SHA-1 in a native replay (no stubs there)
+    #[cfg(not(verif_replay))]
+    let hv: [u8; 20] = uf::h(&[vb]);
+    #[cfg(verif_replay)]
+    let hv: [u8; 20] = crate::common::hash_immutable(&[vb]);
+    let target: Id = if honest { hv.into() } else { Id::from(other) };
+    let authentic = hv == *target.as_bytes();
     lookup(&mut core, target, GetRequestSpecific::GetValue(GetValueRequestArguments { target, seq: None, salt: None }));
     let tid_ok: bool = kani::any();
     let ro: bool = kani::any();
@@ -472,17 +550,18 @@ fn c02_o4i_immutable_glue_probed() {
         Some(_) => assert!(false, "C02.O4 a get_immutable response yields an immutable value"),
         None => assert!(!accept, "C02.O4 an authentic value for an in-flight lookup is delivered"),
     }
-    let (calls, kind, b0, n) = unsafe { (RESP_CALLS.v, RESP_KIND.v, RESP_B0.v, RESP_LEN.v) };
+    let (calls, kind, b0, n) = obs_responses(&core, &target, 0);
     assert!(calls == accept as usize, "C02.O4 only authentic values are recorded in the lookup");
     if accept {
         assert!(kind == 2 && b0 == vb && n == 1, "C02.O4 the recorded response is the authentic value");
     }
-    let learned = unsafe { RT_ADDS.v };
-    let (cands, responders) = unsafe { (CAND_CALLS.v, RESPONDER_CALLS.v) };
+    let learned = obs_learned(&core);
+    let (cands, _) = obs_candidates(&core, &target);
+    let (responders, has_token) = obs_responders(&core, &target);
     if ro || !tid_ok {
         assert!(learned == 0 && cands == 0 && responders == 0, "C09/C18.O4 replies that are read-only or do not match an in-flight request teach nothing");
     } else {
-        assert!(responders == 1 && unsafe { RESPONDER_TOKEN.v }, "C08.O3 a responder that sent a token becomes a storage candidate");
+        assert!(responders == 1 && has_token, "C08.O3 a responder that sent a token becomes a storage candidate");
     }
     assert!(!cut_reached(), "CUT: another kind's validator reached");
     kani::cover!(accept);
@@ -579,7 +658,7 @@ fn mutable_glue(with_salt: bool) {
         assert!(calls == 1 && t0 == 5 && k0 == kb && v0 == val && s == seq && g0 == sgb, "C02.O4 from_dht_message is asked about the lookup's target and the response's own k, v, seq, sig");
         assert!(has == with_salt && (!with_salt || (sl == 1 && s0 == sb)), "C02.O4 from_dht_message is asked about the lookup's (requested) salt");
     }
-    let (rc, kind, b0) = unsafe { (RESP_CALLS.v, RESP_KIND.v, RESP_B0.v) };
+    let (rc, kind, b0, _) = obs_responses(&core, &target, 1);
     assert!(rc == accept as usize, "C02.O4 only verified items are recorded in the lookup");
     if accept {
         assert!(kind == 3 && b0 == val, "C02.O4 the recorded response is the verified item");
@@ -727,12 +806,12 @@ fn c02_o4s_signed_peers_glue_probed() {
         Some(_) => assert!(false, "C02.O4 a get_signed_peers response yields signed peers"),
         None => assert!(!accept, "C02.O4 verified signed peers for an in-flight lookup are delivered"),
     }
-    let (rc, kind, n) = unsafe { (RESP_CALLS.v, RESP_KIND.v, RESP_LEN.v) };
+    let (rc, kind, _, n) = obs_responses(&core, &target, 0);
     assert!(rc == accept as usize, "C02.O4 only fully verified lists are recorded in the lookup");
     if accept {
         assert!(kind == 1 && n == 2, "C02.O4 the recorded response is the verified list");
     } else {
-        assert!(unsafe { RT_ADDS.v } == 0, "C02.O4 a responder that sent an invalid record is not added to the routing table");
+        assert!(obs_learned(&core) == 0, "C02.O4 a responder that sent an invalid record is not added to the routing table");
     }
     assert!(!cut_reached(), "CUT: another kind's validator reached");
     kani::cover!(accept);
@@ -789,8 +868,9 @@ fn c07_o5p_referrals_offered() {
         ResponseSpecific::FindNode(crate::common::FindNodeResponseArguments { responder_id, nodes })
     };
     let out = core.handle_response(from, envelope(if tid_ok { TID } else { TID + 1 }, ro, rs));
-    let (cands, id0, responders, has_token) = unsafe { (CAND_CALLS.v, CAND_ID0.v, RESPONDER_CALLS.v, RESPONDER_TOKEN.v) };
-    let (rc, rk, rn) = unsafe { (RESP_CALLS.v, RESP_KIND.v, RESP_LEN.v) };
+    let (cands, id0) = obs_candidates(&core, &target);
+    let (responders, has_token) = obs_responders(&core, &target);
+    let (rc, rk, _, rn) = obs_responses(&core, &target, 0);
     if tid_ok && !ro {
         assert!(cands == 1 && id0 == 0x44, "C07.O5 the closer nodes of every expected reply are merged into the lookup's candidates");
         assert!(responders == (kind < 2) as usize && (kind >= 2 || has_token), "C08.O3 a responder that sent a token becomes a storage candidate");
@@ -800,7 +880,7 @@ fn c07_o5p_referrals_offered() {
         }
     } else {
         assert!(cands == 0 && responders == 0 && rc == 0 && out.is_none(), "C09/C18.O4 a reply that matches no in-flight request, or is read-only, has no effect on the lookup");
-        assert!(unsafe { RT_ADDS.v } == 0, "C09/C18.O4 replies that are read-only or do not match an in-flight request teach nothing");
+        assert!(obs_learned(&core) == 0, "C09/C18.O4 replies that are read-only or do not match an in-flight request teach nothing");
     }
     assert!(!cut_reached(), "CUT: another kind's validator reached");
     kani::cover!(tid_ok && !ro && kind == 0);
